@@ -224,7 +224,9 @@ class UDPMessageDeserializer:
             # If it has a null terminator, let's try to decode it first.
             # We don't want to do this if there isn't one, because that may change
             # the meaning of the data.
-            if unpacked_data.endswith(b"\x00"):
+            # More than one trailing null can't be represented by a `str`, which
+            # re-encodes with exactly one terminator. Keep those as bytes.
+            if unpacked_data.endswith(b"\x00") and not unpacked_data.endswith(b"\x00\x00"):
                 try:
                     return unpacked_data.decode("utf8").rstrip("\x00")
                 except UnicodeDecodeError:
